@@ -518,6 +518,10 @@ pub fn c19_pty_case(ctx: &Ctx, env: &RealEnv, dir: &Path, case: u64, seed: u64, 
     rep.count("progress_lines_seen", fr.len() as u64);
     let mut prev_done = 0;
     for f in &fr {
+        if f.total == 0 && f.done == 0 && f.running == 0 {
+            // before the build phase's first update (and during the phase that checks the manifest file)
+            continue;
+        }
         if f.total != n {
             rep.violation("display:total-differs", &format!("progress line says {} steps in total, {} commands are wanted", f.total, n), mk(&s, &rounds));
             break;
@@ -744,7 +748,8 @@ pub fn c16_pty_case(ctx: &Ctx, env: &RealEnv, dir: &Path, case: u64, seed: u64, 
         let code = if rng.chance(1, 3) { *rng.pick(&[1, 2, 3, 127, 128, 255]) } else { 0 };
         let term = code == 0 && rng.chance(1, 8);
         let hide_success = rng.chance(1, 3);
-        let mut cmd = String::new();
+        // (every command text is unique: it is what identifies the step on the screen)
+        let mut cmd = format!(": step{}-{:05}; ", i, tag);
         for (k, l) in lines.iter().enumerate() {
             let last = k + 1 == lines.len();
             let fmt = if last && rng.chance(1, 3) { "%s" } else { "%s\\n" };
